@@ -137,6 +137,47 @@ NSH = 12
 BOUNDED = [Bounded("C12.round_trip[%d/%d]" % (i, NSH), P, _run(i, NSH), kind="enumerated models x units x versions, run-time contract") for i in range(NSH)]
 
 
+
+def _time_texts(tier, seed):
+    """Every time of day (all 86 400 seconds) and a grid of simulation times through the text forms WNTR writes:
+    the text must be what EPANET's syntax means by that time (12-hour clock: 12:xx AM is 00:xx, 12:xx PM is 12:xx) and must
+    read back as the same number of seconds."""
+    import wntr.epanet.io as eio
+    from wntr.network.controls import ControlCondition as CC
+    evals, failures, samples = 0, [], []
+
+    def clock_spec(sec):        # written from the EPANET manual's 12-hour clock convention, not from the code
+        h, m, s_ = sec // 3600, (sec % 3600) // 60, sec % 60
+        return "%d:%02d:%02d %s" % (12 if h % 12 == 0 else h % 12, m, s_, "AM" if h < 12 else "PM")
+    for sec in range(0, 86400):
+        txt = CC._sec_to_clock(sec)
+        back = CC._parse_value(txt)
+        words = txt.split()
+        back2 = eio._clock_time_to_sec(words[0], words[1])
+        evals += 1
+        if txt != clock_spec(sec) or back != sec or back2 != sec:
+            if len(failures) < 10:
+                failures.append(dict(seconds=sec, written=txt, means=clock_spec(sec), rule_reader=float(back), controls_reader=int(back2)))
+    grid = list(range(0, 200000, 7)) + [t * 3600 + r for t in (24, 25, 48, 100, 1000) for r in (0, 1, 59, 60, 3599)]
+    for sec in grid:
+        txt = CC._sec_to_hours_min_sec(sec)
+        h, m, s_ = eio._sec_to_string(sec)
+        txt2 = "%02d:%02d:%02d" % (h, m, s_)
+        evals += 1
+        ok = txt == "%02d:%02d:%02d" % (sec // 3600, (sec % 3600) // 60, sec % 60) and CC._parse_value(txt) == sec and eio._str_time_to_sec(txt) == sec \
+            and txt2 == txt and eio._str_time_to_sec(txt2) == sec
+        if not ok and len(failures) < 10:
+            failures.append(dict(seconds=sec, rule_text=txt, times_text=txt2, rule_reader=float(CC._parse_value(txt)), times_reader=int(eio._str_time_to_sec(txt2))))
+    samples.append(dict(seconds=45000, written=CC._sec_to_clock(45000)))
+    return dict(evaluations=evals, distinct_nontrivial=86400 + len(grid), failures=failures, samples=samples, exhaustive=True,
+                scope="all 86 400 clock times through ControlCondition._sec_to_clock -> _parse_value and -> io._clock_time_to_sec; %d simulation times "
+                      "through _sec_to_hours_min_sec / io._sec_to_string -> _parse_value / io._str_time_to_sec; written text compared with the 12-hour clock "
+                      "convention of the EPANET syntax" % len(grid))
+
+
+BOUNDED.append(Bounded("C12.time_texts", P + ["C13", "C03", "C04"], _time_texts, kind="exhaustive over the times of a day"))
+
+
 # ================================================================================================
 # Deductive core: conversion pairing of section writers and readers (token model, see pyvc/values.py:SymStr)
 #
@@ -156,6 +197,7 @@ from wntr.epanet.util import FlowUnits, MassUnits
 from wntr.network import LinkStatus
 from wntr.network.elements import Junction, Tank, Reservoir, Pipe, PRValve, PSValve, PBValve, FCValve, TCValve
 
+from pyvc.values import real_val
 Rr = library.as_real
 
 
@@ -215,6 +257,11 @@ def _roundtrip_call(writer, reader, section, inpw, inpr, wnw):
 
 def _eqn(a, b):
     return Rr(a) == Rr(b)
+
+
+def _within(a, b, rel=1e-8):
+    ab = z3.If(b >= 0, b, -b)
+    return z3.And(a - b <= real_val(rel) * ab, b - a <= real_val(rel) * ab)
 
 
 def _pipe_case(units, headloss, status, cv):
@@ -508,6 +555,108 @@ def _rule_case(units, ck, then_cls, else_cls):
     return Case("%s,if_%s_of_%s,then_%s,else_%s" % (units.name, attr, nm(ccls), nm(then_cls), nm(else_cls)), build, crosscheck=False)
 
 
+# ---------------------------------------------------------------------------- simple controls: [CONTROLS] lines
+
+def _control_models():
+    import wntr.network.controls as ctl
+    m = library.build_models()
+
+    def upper(interp, args, kw):
+        v = args[0]
+        if v.k in ("int", "real"):
+            return v                  # token model: a numeric token has no letters
+        from pyvc.values import NameSort
+        f = z3.Function("upper_case", NameSort, NameSort)
+        return SV(f(v.t), "name")     # a name in upper case is some (possibly different) name
+    m.register("sym:SV.upper", upper, trusted="token model: upper() of a numeric token is the token")
+    m.register(ctl.ControlAction, lambda interp, args, kw: ("ControlAction", tuple(args)), verified_by="ControlAction.__init__ (contracts/c05_conditions.py)")
+    m.register(ctl.Control._conditional_control, lambda interp, args, kw: ("conditional", tuple(args)), verified_by="Control._conditional_control stores its arguments (C05)")
+    m.register(ctl.Control._time_control, lambda interp, args, kw: ("time", tuple(args)), verified_by="Control._time_control (contracts/c04_time.py)")
+    return m
+
+
+class _CtlModel(NativeModel):
+    def __init__(self, ctl, elems):
+        self.ctl, self.elems = ctl, elems
+        self.added = []
+        self.control_name_list = []
+        self.name = "net"
+
+    def controls(self):
+        return [("c1", self.ctl)]
+
+    def _find(self, name):
+        for n, e in self.elems:
+            if isinstance(n, SV) and isinstance(name, SV) and n.t.eq(name.t):
+                return e
+        raise KeyError(name)
+
+    get_link = _find
+    get_node = _find
+
+    def add_control(self, name, obj):
+        self.added.append((name, obj))
+
+
+def _control_case(units, src_kind, relation_below, target_cls, attribute):
+    def build(cx):
+        import numpy as _np
+        import wntr.network.controls as ctl
+        from wntr.network.elements import HeadPump
+        tn, sn = cx.name("link"), cx.name("node")
+        cx.assume(cx.t(tn) != cx.t(sn))
+        # requires: element names are not keywords of the [CONTROLS] syntax (the reader looks for them among the upper-cased words of the line)
+        from pyvc.values import NameSort, name_const
+        up = z3.Function("upper_case", NameSort, NameSort)
+        for kw in ("TIME", "CLOCKTIME", "IF", "AT", "ABOVE", "BELOW", "OPEN", "OPENED", "CLOSED", "ACTIVE", "JUNCTION", "TRUE", "FALSE", "AM", "PM"):
+            cx.assume(up(cx.t(tn)) != name_const(kw), up(cx.t(sn)) != name_const(kw), cx.t(tn) != name_const(kw), cx.t(sn) != name_const(kw))
+        tcls = HeadPump if target_cls == "pump" else target_cls
+        target = SymObj(tcls, dict(_link_name=tn))
+        src = SymObj(Tank if src_kind == "Tank" else Junction, dict(_name=sn))
+        thr = cx.real("threshold")
+        val = cx.real("value") if attribute != "status" else LinkStatus.Closed
+        act = SymObj(ctl.ControlAction, dict(_target_obj=target, _attribute=attribute, _value=val))
+        cond = SymObj(ctl.ValueCondition, dict(_source_obj=src, _source_attr=("level" if src_kind == "Tank" else "pressure"),
+                                              _relation=(ctl.Comparison.lt if relation_below else ctl.Comparison.gt), _threshold=thr))
+        control = SymObj(ctl.Control, dict(_condition=cond, _then_actions=[act], _else_actions=[], _control_type=ctl._ControlType.postsolve, _name="c1"))
+        wnw = _CtlModel(control, [(tn, target), (sn, src)])
+        wnr = _CtlModel(None, [(tn, target), (sn, src)])
+        inpr = _inp(units, wnr)
+        cx.target(_roundtrip_call, InpFile._write_controls, InpFile._read_controls, "[CONTROLS]", _inp(units, wnw), inpr, wnw)
+
+        def post(out):
+            if not out.returned:
+                return []
+            posts = [("one_line_written_one_control_read", out.value == 1 and len(wnr.added) == 1)]
+            if len(wnr.added) != 1 or wnr.added[0][1][0] != "conditional":
+                return posts + [("read_back_as_a_conditional_control", False)]
+            node, attr, oper, threshold, action = wnr.added[0][1][1][:5]
+            a_args = action[1]
+            # what EPANET is told (the syntax of [CONTROLS]: tank level in ft / m, junction pressure in psi / m, valve settings in the unit of the valve type)
+            from contracts.c17_units import hyd_spec
+            from wntr.epanet.util import HydParam
+            toks = inpr.fields["sections"]["[CONTROLS]"][0][1].tokens()
+            k_thr, _ = hyd_spec(HydParam.HydraulicHead if src_kind == "Tank" else HydParam.Pressure, units, False)
+            posts.append(("written_threshold_is_in_the_unit_the_controls_syntax_prescribes", _within(Rr(toks[7]) * real_val(k_thr), Rr(thr))))
+            if attribute == "setting":
+                par = {"PRValve": HydParam.Pressure, "PSValve": HydParam.Pressure, "PBValve": HydParam.Pressure, "FCValve": HydParam.Flow}.get(tcls.__name__)
+                k_set = hyd_spec(par, units, False)[0] if par is not None else 1.0
+                posts.append(("written_setting_is_in_the_unit_of_its_valve_type", _within(Rr(toks[2]) * real_val(k_set), Rr(val))))
+            posts += [("condition_node_and_attribute_kept", node is src and attr == ("level" if src_kind == "Tank" else "pressure")),
+                      ("above_below_kept", oper is (_np.less if relation_below else _np.greater)),
+                      ("threshold_round_trips_as_head_for_tanks_and_pressure_for_junctions", _eqn(threshold, thr)),
+                      ("action_target_and_attribute_kept", a_args[0] is target and a_args[1] == attribute),
+                      ("action_value_round_trips_in_the_unit_of_its_element_type",
+                       _eqn(a_args[2], val) if attribute != "status" else (a_args[2] == LinkStatus.Closed.value))]
+            return posts
+        cx.ensure(post)
+    nm = target_cls if isinstance(target_cls, str) else target_cls.__name__
+    return Case("%s,if_%s_%s,%s_%s" % (units.name, src_kind, "below" if relation_below else "above", nm, attribute), build, crosscheck=False)
+
+
+_CTL_KINDS = [("Tank", False, Pipe, "status"), ("Junction", True, Pipe, "status"), ("Junction", False, PRValve, "setting"), ("Tank", True, PSValve, "setting"),
+              ("Junction", True, PBValve, "setting"), ("Tank", False, FCValve, "setting"), ("Junction", False, TCValve, "setting"), ("Tank", True, "pump", "base_speed")]
+
 _U = [getattr(FlowUnits, u) for u in UNITS]
 _pair_trust = ["token model: float(format(v)) == v for the 11/12-significant-digit formats, names contain no blanks",
                "to_si / from_si are exact inverses with the right parameter (C17, proved)",
@@ -529,6 +678,11 @@ CONTRACTS = [
              [_rule_case(u, ck, _ACT_KINDS[ck % 6], _ACT_KINDS[(ck + 2) % 6]) for u in _U for ck in range(len(_COND_KINDS))],
              models=_rule_models, interpret_always=(_rule_pair,),
              trusted=_pair_trust + ["text splitting of the [RULES] section into clauses (parse_rules_lines): bounded round trip"]),
+    Contract("wntr.epanet.io:InpFile._write_controls/_read_controls/_read_control_line", P + ["C03"],
+             [_control_case(u, *k) for u in _U for k in _CTL_KINDS], models=_control_models, interpret_always=(_roundtrip_call,),
+             note="conditional simple controls (tank level / junction pressure, above / below) with a status, valve setting or pump speed action; "
+                  "time and clock-time controls are in the bounded round trip",
+             trusted=_pair_trust),
     Contract("wntr.epanet.io:InpFile._write_valves/_read_valves", P, [_valve_case(u, c) for u in _U for c in (PRValve, PSValve, PBValve, FCValve, TCValve)],
              interpret_always=(_roundtrip_call,), trusted=_pair_trust),
 ]
